@@ -15,7 +15,78 @@
  * Output: "OK <result hex> <ret hex> calls=<n>"   or   "DIFF variant=<v> sa=<n> da=<n> got=<hex>/<ret> want=<hex>/<ret>"
  * A sanitizer report prints "FAULT asan variant=<v> sa=<n> da=<n>" first (callback __asan_on_error). */
 #include "hcommon.h"
+/* dispatch.c is #included for its static scalar definitions and for a PRIVATE copy of the table (g_dispatch, read by the
+ * `dispatch` case); its public symbols are renamed so that the library's own dispatch.o stays linked and is what the
+ * `dispatch` variant calls. */
+#define carquet_simd_dispatch_init h_priv_simd_dispatch_init
+#define carquet_dispatch_prefix_sum_i32 h_priv_dispatch_prefix_sum_i32
+#define carquet_dispatch_prefix_sum_i64 h_priv_dispatch_prefix_sum_i64
+#define carquet_dispatch_gather_i32 h_priv_dispatch_gather_i32
+#define carquet_dispatch_gather_i64 h_priv_dispatch_gather_i64
+#define carquet_dispatch_gather_float h_priv_dispatch_gather_float
+#define carquet_dispatch_gather_double h_priv_dispatch_gather_double
+#define carquet_dispatch_byte_split_encode_float h_priv_dispatch_byte_split_encode_float
+#define carquet_dispatch_byte_split_decode_float h_priv_dispatch_byte_split_decode_float
+#define carquet_dispatch_byte_split_encode_double h_priv_dispatch_byte_split_encode_double
+#define carquet_dispatch_byte_split_decode_double h_priv_dispatch_byte_split_decode_double
+#define carquet_dispatch_unpack_bools h_priv_dispatch_unpack_bools
+#define carquet_dispatch_pack_bools h_priv_dispatch_pack_bools
+#define carquet_dispatch_find_run_length_i32 h_priv_dispatch_find_run_length_i32
+#define carquet_dispatch_crc32c h_priv_dispatch_crc32c
+#define carquet_dispatch_match_copy h_priv_dispatch_match_copy
+#define carquet_dispatch_match_length h_priv_dispatch_match_length
+#define carquet_dispatch_count_non_nulls h_priv_dispatch_count_non_nulls
+#define carquet_dispatch_build_null_bitmap h_priv_dispatch_build_null_bitmap
+#define carquet_dispatch_fill_def_levels h_priv_dispatch_fill_def_levels
 #include "simd/dispatch.c"
+#undef carquet_simd_dispatch_init
+#undef carquet_dispatch_prefix_sum_i32
+#undef carquet_dispatch_prefix_sum_i64
+#undef carquet_dispatch_gather_i32
+#undef carquet_dispatch_gather_i64
+#undef carquet_dispatch_gather_float
+#undef carquet_dispatch_gather_double
+#undef carquet_dispatch_byte_split_encode_float
+#undef carquet_dispatch_byte_split_decode_float
+#undef carquet_dispatch_byte_split_encode_double
+#undef carquet_dispatch_byte_split_decode_double
+#undef carquet_dispatch_unpack_bools
+#undef carquet_dispatch_pack_bools
+#undef carquet_dispatch_find_run_length_i32
+#undef carquet_dispatch_crc32c
+#undef carquet_dispatch_match_copy
+#undef carquet_dispatch_match_length
+#undef carquet_dispatch_count_non_nulls
+#undef carquet_dispatch_build_null_bitmap
+#undef carquet_dispatch_fill_def_levels
+/* the library's own dispatcher entry points (dispatch.o of the build under test) */
+extern void carquet_simd_dispatch_init(void);
+extern void carquet_dispatch_prefix_sum_i32(int32_t*, int64_t, int32_t);
+extern void carquet_dispatch_prefix_sum_i64(int64_t*, int64_t, int64_t);
+extern void carquet_dispatch_gather_i32(const int32_t*, const uint32_t*, int64_t, int32_t*);
+extern void carquet_dispatch_gather_i64(const int64_t*, const uint32_t*, int64_t, int64_t*);
+extern void carquet_dispatch_gather_float(const float*, const uint32_t*, int64_t, float*);
+extern void carquet_dispatch_gather_double(const double*, const uint32_t*, int64_t, double*);
+extern void carquet_dispatch_byte_split_encode_float(const float*, int64_t, uint8_t*);
+extern void carquet_dispatch_byte_split_decode_float(const uint8_t*, int64_t, float*);
+extern void carquet_dispatch_byte_split_encode_double(const double*, int64_t, uint8_t*);
+extern void carquet_dispatch_byte_split_decode_double(const uint8_t*, int64_t, double*);
+extern void carquet_dispatch_unpack_bools(const uint8_t*, uint8_t*, int64_t);
+extern void carquet_dispatch_pack_bools(const uint8_t*, uint8_t*, int64_t);
+extern int64_t carquet_dispatch_find_run_length_i32(const int32_t*, int64_t);
+extern uint32_t carquet_dispatch_crc32c(uint32_t, const uint8_t*, size_t);
+extern void carquet_dispatch_match_copy(uint8_t*, const uint8_t*, size_t, size_t);
+extern size_t carquet_dispatch_match_length(const uint8_t*, const uint8_t*, const uint8_t*);
+extern int64_t carquet_dispatch_count_non_nulls(const int16_t*, int64_t, int16_t);
+extern void carquet_dispatch_build_null_bitmap(const int16_t*, int64_t, int16_t, uint8_t*);
+extern void carquet_dispatch_fill_def_levels(int16_t*, int64_t, int16_t);
+/* the encoding layer's entry points above the dispatcher (src/encoding/byte_stream_split.c) */
+extern carquet_status_t carquet_byte_stream_split_encode_float(const float*, int64_t, uint8_t*, size_t, size_t*);
+extern carquet_status_t carquet_byte_stream_split_decode_float(const uint8_t*, size_t, float*, int64_t);
+extern carquet_status_t carquet_byte_stream_split_encode_double(const double*, int64_t, uint8_t*, size_t, size_t*);
+extern carquet_status_t carquet_byte_stream_split_decode_double(const uint8_t*, size_t, double*, int64_t);
+extern carquet_status_t carquet_byte_stream_split_encode(const uint8_t*, int64_t, int32_t, uint8_t*, size_t, size_t*);
+extern carquet_status_t carquet_byte_stream_split_decode(const uint8_t*, size_t, int32_t, uint8_t*, int64_t);
 #include <immintrin.h>
 
 #if defined(__SANITIZE_ADDRESS__)
@@ -487,6 +558,46 @@ static void op_mcpy(int v, size_t sa, size_t da, result* r) {
     r->canary = hb_done(&s) | hb_done(&o);
 }
 
+
+/* encoding-layer entry points above the dispatcher: P_op = bapi_<kind>, kind = ef df ed dd (float/double wrappers) or
+ * e<k> / d<k> (generic FLBA of k bytes).  P_b = capacity mode: 0 exact, 1 one byte short, 2 NULL output, 3 negative count
+ * (generic decode).  Result = status code, output bytes when OK (and bytes_written for encoders). */
+static void op_bapi(int v, size_t sa, size_t da, result* r) {
+    const char* k = P_op + 5; int enc = k[0] == 'e';
+    int w = k[1] == 'f' ? 4 : k[1] == 'd' ? 8 : atoi(k + 1), generic = !(k[1] == 'f' || k[1] == 'd');
+    size_t n = (size_t)P_count * (size_t)(w > 0 ? w : 0);
+    int mode = (int)P_b;
+    if (v == V_REF) {
+        if (mode == 2 || (generic && w <= 0)) { r->ret = CARQUET_ERROR_INVALID_ARGUMENT; r->len = 0; return; }
+        if (mode == 3) { r->ret = CARQUET_ERROR_DECODE; r->len = 0; return; }
+        if (mode == 1) { r->ret = enc ? CARQUET_ERROR_ENCODE : CARQUET_ERROR_DECODE; r->len = 0; return; }
+        uint8_t* t = malloc(n + 9);
+        if (enc) ref_bss_encode(P_d0, P_count, w, t); else ref_bss_decode(P_d0, P_count, w, t);
+        if (enc) { uint64_t bw = n; memcpy(t + n, &bw, 8); }
+        res_put(r, t, n + (enc ? 8 : 0)); free(t); r->ret = CARQUET_OK; return;
+    }
+    if (v != V_DISPATCH) { r->na = 1; return; }
+    hbuf s = hb_new(n, sa, P_d0, 0), o = hb_new(n, da, NULL, 0xEE);
+    size_t cap = mode == 1 ? (n ? n - 1 : 0) : n; size_t written = 0xDEADBEEF; carquet_status_t st;
+    uint8_t* op = mode == 2 ? NULL : o.p; int64_t cnt = mode == 3 ? -1 : P_count;
+    if (mode == 1 && n == 0) { r->na = 1; hb_done(&s); hb_done(&o); return; }
+    if (!generic && w == 4) st = enc ? carquet_byte_stream_split_encode_float((const float*)s.p, cnt, op, cap, &written)
+                                     : carquet_byte_stream_split_decode_float(s.p, cap, (float*)op, cnt);
+    else if (!generic)      st = enc ? carquet_byte_stream_split_encode_double((const double*)s.p, cnt, op, cap, &written)
+                                     : carquet_byte_stream_split_decode_double(s.p, cap, (double*)op, cnt);
+    else                    st = enc ? carquet_byte_stream_split_encode(s.p, cnt, w, op, cap, &written)
+                                     : carquet_byte_stream_split_decode(s.p, cap, w, op, cnt);
+    r->ret = (uint64_t)st;
+    if (st == CARQUET_OK) {
+        uint8_t* t = malloc(n + 9); memcpy(t, o.p, n);
+        if (enc) { uint64_t bw = written; memcpy(t + n, &bw, 8); }
+        res_put(r, t, n + (enc ? 8 : 0)); free(t);
+    } else {
+        for (size_t i = 0; i < n; i++) if (o.p[i] != 0xEE) r->canary = 1;      /* nothing written on an error */
+    }
+    r->canary |= hb_done(&s) | hb_done(&o);
+}
+
 /* ------------------------------------------------------------------------------------------------ dispatch table */
 
 #define SYM(f) {#f, (void (*)(void))f}
@@ -519,7 +630,7 @@ static const char* symname(void (*f)(void)) {
 }
 #define SLOT(s) printf(" %s=%s", #s, symname((void (*)(void))g_dispatch.s))
 static void print_dispatch(void) {
-    carquet_simd_dispatch_init();
+    h_priv_simd_dispatch_init();
     const carquet_cpu_info_t* c = carquet_get_cpu_info();
     printf("OK caps=%d%d%d%d%d%d%d%d%d", c->has_sse2, c->has_sse41, c->has_sse42, c->has_avx, c->has_avx2,
            c->has_avx512f, c->has_avx512bw, c->has_avx512vl, c->has_avx512vbmi);
@@ -633,6 +744,7 @@ static void run_op(int v, size_t sa, size_t da, result* r) {
     else if (!strcmp(P_op, "bu")) op_bu(v, sa, da, r);
     else if (!strcmp(P_op, "mset")) op_mset(v, sa, da, r);
     else if (!strcmp(P_op, "mcpy")) op_mcpy(v, sa, da, r);
+    else if (!strncmp(P_op, "bapi_", 5)) op_bapi(v, sa, da, r);
     else r->na = 2;
     cur_variant = "-";
 }
@@ -674,6 +786,10 @@ static int gen_big(const char* op, int64_t count, const char* pattern, uint32_t 
         uint8_t* ix = big_alloc(n * 4);
         for (size_t i = 0; i < n; i++) { uint32_t v = pat_hit(pat, i, &st) ? (pat == 0 ? lcg(&st) % dl : (uint32_t)dl - 1) : 0; memcpy(ix + 4 * i, &v, 4); }
         P_a = dl; P_d0 = d; P_n0 = dl * w; P_d1 = ix; P_n1 = n * 4; *b0 = d; *b1 = ix;
+    } else if (!strncmp(op, "bapi_", 5)) {
+        int w = op[6] == 'f' ? 4 : op[6] == 'd' ? 8 : atoi(op + 6); uint8_t* d = big_alloc(n * w);
+        for (size_t i = 0; i < n * w; i++) d[i] = pat_hit(pat, i, &st) ? (uint8_t)(1 + lcg(&st) % 255) : 0;
+        P_b = 0; P_d0 = d; P_n0 = n * w; *b0 = d;
     } else if (!strncmp(op, "bss", 3)) {
         int w = op[4] == 'f' ? 4 : 8; uint8_t* d = big_alloc(n * w);
         for (size_t i = 0; i < n * w; i++) d[i] = pat_hit(pat, i, &st) ? (uint8_t)(1 + lcg(&st) % 255) : 0;
@@ -756,6 +872,7 @@ int main(void) {
         else if (!strcmp(P_op, "filldef") || !strcmp(P_op, "mset")) { NEED(2); if (ok) { P_count = atoll(t[0]); P_a = hexu(t[1]); } }
         else if (!strcmp(P_op, "bu")) { NEED(2); if (ok) { for (size_t i = 0; i < sizeof bu_tab / sizeof bu_tab[0]; i++) if (!strcmp(bu_tab[i].name, t[0])) P_bu = &bu_tab[i]; if (!P_bu) ok = 0; else P_d0 = h_unhex(t[1], &P_n0, 0, &b0); } }
         else if (!strcmp(P_op, "mcpy")) { NEED(1); if (ok) P_d0 = h_unhex(t[0], &P_n0, 0, &b0); }
+        else if (!strncmp(P_op, "bapi_", 5)) { NEED(3); if (ok) { P_count = atoll(t[0]); P_b = (uint64_t)atoll(t[1]); P_d0 = h_unhex(t[2], &P_n0, 0, &b0); } }
         else ok = 0;
         if (!ok) { puts("ERR bad-case"); free(b0); free(b1); fflush(stdout); continue; }
 
